@@ -98,6 +98,15 @@ structure Metadata where
 def is_dir (m : Metadata) : Bool := m.dir
 def modified (m : Metadata) : Except Err SystemTime := .ok m.mtime
 instance : Len Metadata := ⟨fun m => m.size⟩
+/-- `v[i]` behind a length test (`default` stands for the out-of-bounds panic) -/
+def index [Inhabited α] (l : List α) (i : Nat) : α := l.getD i default
+/-- `std::io::SeekFrom` -/
+inductive SeekFrom where
+  | Start (n : Nat) | End (n : Int) | Current (n : Int)
+  deriving DecidableEq, Repr
+/-- `UNIX_EPOCH`, `Duration::from_secs`, `SystemTime + Duration` (nanoseconds) -/
+def UNIX_EPOCH : SystemTime := 0
+def duration_from_secs (s : Nat) : Duration := s * 1000000000
 /-- the text of an error message (never inspected by the program) -/
 def opaqueMsg : Str := []
 def as_millis (d : Duration) : Nat := d / 1000000
